@@ -341,7 +341,8 @@ fn epilogue(sc: &MScenario, sim: &mut Sim, h: &mut MHandle) -> Option<Violation>
         return Some(v);
     }
     let resized = with_w(|w| w.max_size_log.len() > 1);
-    let wants_probe = matches!(sc.profile.as_str(), "C02" | "C03" | "C07") || (sc.profile == "C09" && !resized);
+    let _ = resized;
+    let wants_probe = matches!(sc.profile.as_str(), "C02" | "C03" | "C07" | "C09");
     if wants_probe {
         let (pool, expect, closed) = with_w(|w| {
             (
